@@ -117,10 +117,42 @@ def points(tier: str) -> List[Dict[str, Any]]:
                 pts.append({"cache": {"srv": st_srv, "txt": "fresh", "a": st_a, "aaaa": "absent"}, "timeout": 3000,
                             "arrive": ({"srv": arr} if st_srv != "fresh" else {}) | {"aaaa": "never"}, "forced": None,
                             "extra": True})
+    pts += [dict(q, names="sharp") for q in pts[::9]]
     return pts
 
 
+# the same scenarios with names whose lower-cased and case-folded spellings differ (sharp s, micro sign, final sigma): every
+# way of filing and finding a record by name has to agree on ONE canonical spelling
+_SHARP = {"x._a._tcp.local.": "Straße µ ς._a._tcp.local.", "h.local.": "weiß-µ.local.", "hb.local.": "groß.local."}
+_NAMED = ("NAME", "HOSTN", "GOOD", "OLD", "A_EXTRA", "HOST_B", "SRV_B", "A_B", "A_B_OLD", "TXT_B")
+
+
+def _renamed(x: Any) -> Any:
+    if isinstance(x, str):
+        return _SHARP.get(x, x)
+    if isinstance(x, tuple):
+        return tuple(_renamed(v) for v in x)
+    if isinstance(x, list):
+        return [_renamed(v) for v in x]
+    if isinstance(x, dict):
+        return {k: _renamed(v) for k, v in x.items()}
+    return x
+
+
 def run_point(p: Dict[str, Any], verbose: bool = False) -> Tuple[Optional[Dict[str, Any]], str, int]:
+    if p.get("names") == "sharp":
+        g = globals()
+        saved = {k: g[k] for k in _NAMED}
+        try:
+            for k in _NAMED:
+                g[k] = _renamed(saved[k])
+            return _run_point(p, verbose)
+        finally:
+            g.update(saved)
+    return _run_point(p, verbose)
+
+
+def _run_point(p: Dict[str, Any], verbose: bool = False) -> Tuple[Optional[Dict[str, Any]], str, int]:
     from zeroconf import DNSQuestionType
     from zeroconf.asyncio import AsyncServiceInfo
 
@@ -294,11 +326,11 @@ def run_point(p: Dict[str, Any], verbose: bool = False) -> Tuple[Optional[Dict[s
                 fresh_txt = st["txt"] in ("fresh", "fresh+exp")
                 asked = {(q[1].lower(), q[2]) for q in d.msg.questions}
                 if first:
-                    if fresh_srv and (NAME, 33) in asked:
+                    if fresh_srv and (NAME.lower(), 33) in asked:
                         problems.append("queries: SRV asked although a non-stale SRV answer is held")
-                    if fresh_txt and (NAME, 16) in asked:
+                    if fresh_txt and (NAME.lower(), 16) in asked:
                         problems.append("queries: TXT asked although a non-stale TXT answer is held")
-                    if not fresh_srv and (NAME, 33) not in asked:
+                    if not fresh_srv and (NAME.lower(), 33) not in asked:
                         problems.append("queries: first query does not ask for the missing SRV record")
         excs = w.exceptions()
         if excs:
